@@ -14,12 +14,19 @@ CLAUSE = ("Clause-level static decision: the named structural/algebraic parts, e
 CHECKS = {
     "C19": (True,
             "inter-procedural ownership/effect (may-alias, may-write) analysis + who-may-call over the call graph; def-use completeness of "
-            "memo-cache keys (PU-CACHE); CFG rule on value-less exits whose value is used (PU-NONE)",
+            "memo-cache keys (PU-CACHE); CFG rule on value-less exits whose value is used (PU-NONE); must-analysis over reaching "
+            "definitions of arithmetic carried out in the dtype of the caller's arrays (PU-INTARITH); def-use rule on scratch buffers "
+            "refilled in part and read whole (BUF-STALE, run by every check)",
             CLAUSE + "Decides: no public entry point writes through an argument (PU-ARGS), no method mutates an object "
             "reachable from self in place (PU-CAPT), no module/class/default-argument state is written (PU-STATE), RNG and "
             "pyplot who-may-call (PU-RNG, PU-PLT), integer-closed stores into caller-typed copies and casts of one argument to another's "
             "dtype (PU-DTYPE), module-level memo caches keyed by everything they depend on (PU-CACHE: a correct cache is not a "
-            "violation, a cache keyed by too little is), no use of the value of a call that can return nothing (PU-NONE). "
+            "violation, a cache keyed by too little is), no use of the value of a call that can return nothing (PU-NONE), no difference of two caller arrays, product, power or "
+            "sum formed while both operands still have the caller's integer dtype (PU-INTARITH: unsigned differences wrap, narrow "
+            "products overflow — found F12 and F13 in persim), in-place updates of an object the instance built for itself are "
+            "own state, not captured caller data (PU-CAPT, decided from every store to the attribute in the class hierarchy), a "
+            "clock reading that only reaches logging calls — also through parameters of helpers — is no source of "
+            "non-repeatability (PU-RNG). "
             "Declines: bit-identical repeatability of floating-point results.",
             "Trusted: the copy/view/mutator table for external callables in pst/core/own.py; user-supplied weight/kernel "
             "callables are pure by contract; path-insensitive may-analysis (a write behind an infeasible branch would be "
@@ -43,7 +50,7 @@ CHECKS.update({
             "corner), BN-CAND (every finite cell of the matrix is among the candidate thresholds — the parts handed to np.unique "
             "are enumerated positionally on small sizes), BN-GRAPH (the graph handed to the matching library is {(r, c): D[r, c] <= d} cell by cell — sets of columns "
             "are membership predicates, compared with the thresholded matrix on sizes up to 3+3 with d at / between / below the "
-            "entries), BN-DTYPE (no float store into an array typed by a diagram, no cast of one diagram to the other's dtype), BN-FILTER/WARN, BN-THRESH, BN-PERFECT, BN-BISECT, BN-ORDER, BN-EMPTY (an empty diagram and a diagram whose "
+            "entries), BN-DTYPE (no float store into an array typed by a diagram, no cast of one diagram to the other's dtype, no arithmetic between the two diagrams in their own integer dtype), BN-SHORT (no short cut decides the distance on column-wise sorted diagrams), BN-FILTER/WARN, BN-THRESH, BN-PERFECT, BN-BISECT, BN-ORDER, BN-EMPTY (an empty diagram and a diagram whose "
             "points all have an infinite death are both stood in for by one diagonal point): the "
             "augmented matrix is the statement's cost model for every size, and the search's structural invariants hold. "
             "BN-SEARCH (BOUNDED): with the candidate thresholds replaced by a list of n <= 6 (thorough 9) ordered symbols and the "
@@ -51,7 +58,7 @@ CHECKS.update({
             "candidate for every n and every position of it. Declines: that Hopcroft-Karp finds a maximum matching, float ties.",
             SYMNOTE + "Hopcroft-Karp returns a maximum matching (dict with both directions).", "DESIGN.md §4 C01"),
     "C02": (True, "symbolic abstract interpretation to normal forms (rotation constants folded, blocks, solver wiring)",
-            CLAUSE + "Decides WS-DTYPE (no cast of one diagram to the other's dtype, no float store into a diagram-typed array), ST-CACHE (module-level memo caches written by the analysed code are keyed by everything they depend on — run by every check), WS-COST, WS-TILE, WS-FILTER/WARN, WS-SOLVE, WS-EMPTY (empty and all-infinite diagrams), IT-ONCE (no one-shot "
+            CLAUSE + "Decides WS-DTYPE (no cast of one diagram to the other's dtype, no float store into a diagram-typed array, no arithmetic between the two diagrams in their own integer dtype), WS-SHORT (no short cut on column-wise sorted diagrams), ST-CACHE (module-level memo caches written by the analysed code are keyed by everything they depend on — run by every check), WS-COST, WS-TILE, WS-FILTER/WARN, WS-SOLVE, WS-EMPTY (empty and all-infinite diagrams), IT-ONCE (no one-shot "
             "iterator is consumed twice on a path). Declines: optimality of the Hungarian "
             "solver, conditioning.", SYMNOTE + "linear_sum_assignment minimises over perfect assignments.",
             "DESIGN.md §4 C02"),
@@ -84,7 +91,7 @@ CHECKS.update({
                   "sign analysis of the radicand; HT-MULT (non-accumulating scatter) and the narrowing dataflow (no cast of the "
                   "diagrams' coordinates to single precision: two inter-procedural fixpoints), both with positive examples",
             CLAUSE + "Decides HT-KER (incl. inputs with exact and near ties: conditions that select rows are exercised on both "
-            "sides), HT-DIST, HT-SWAP, HT-UNITS, HT-REAL, HT-STATE, HT-DTYPE and proves HT-SHIFT (row-selecting conditions are typed too) (translation invariance for "
+            "sides), HT-DIST, HT-SWAP, HT-UNITS, HT-REAL, HT-STATE, HT-DTYPE (also: the squared distances are not formed in the integer dtype of the input arrays — found F13) and proves HT-SHIFT (row-selecting conditions are typed too) (translation invariance for "
             "every input, exact arithmetic). Declines: exact zeros in floating point, triangle inequality, stability.",
             SYMNOTE + "sigma > 0.", "DESIGN.md §4 C14"),
 })
@@ -94,14 +101,14 @@ CHECKS.update({
                   "translation-weight typing; normal-form comparison of the projected vectors; loop-summary rules; narrowing "
                   "dataflow (what is single precision / what is reached from the diagrams) for SW-DTYPE",
             CLAUSE + "Proves SW-DEG (linear scaling) and SW-SHIFT (diagonal translation invariance incl. negative "
-            "coordinates) for every input in exact arithmetic; decides SW-PROJ, SW-AUG, SW-AVG, SW-DTYPE (no float store into an array typed by the caller's "
+            "coordinates) for every input in exact arithmetic; decides SW-PROJ, SW-AUG, SW-AVG (the sweep may be split over helpers of the module: a generator of per-direction costs and an averaging routine — every loop that carries state is read, each must make M trips, the weight must be 1/M of the caller's M), SW-DTYPE (no float store into an array typed by the caller's "
             "data). Declines: <=2*W1, triangle "
             "inequality, diagonal-point insensitivity, quadrature error in M.",
             SYMNOTE + "float32 rounding of the direction vector ignored within 1e-6.", "DESIGN.md §4 C15"),
     "C16": (True, "symbolic evaluation to the entropy normal form under every flag configuration; degree/weight/"
                   "row-symmetry facets; path-condition (guard) equivalence; raise events whose path condition mentions the "
                   "supplied value alone",
-            CLAUSE + "Decides PE-FORM, PE-GUARD, PE-INF, PE-LIST and proves PE-INV (scale, translation and order invariance "
+            CLAUSE + "Decides PE-FORM (normalised form for n >= 2 bars), PE-GUARD, PE-INF, PE-LIST (a list of barcodes of different sizes, with and without normalize: entry k is the entropy of barcode k normalised by its own size) and proves PE-INV (scale, translation and order invariance "
             "for every barcode, keep_inf=False). Declines: the numeric bounds 0<=E<=log n.",
             SYMNOTE, "DESIGN.md §4 C16"),
 })
@@ -112,8 +119,9 @@ CHECKS.update({
                   "with reachability conditions, coordinate normal forms and style arguments, one call site split into arms "
                   "by the conditions inside its coordinates",
             CLAUSE + "Decides PL-RECV, PL-IDX, PL-FOOT, PL-SEG, PL-MAX, PL-DGM, PL-LIM, PL-LAND (both landscape plots evaluated on a 3-depth "
-            "landscape of symbols with a recording axes object, for a depth selection and the default: every line carries the "
-            "requested depth's own data and label). Declines: pixel-level "
+            "landscape of symbols with a recording axes object, for a depth selection and the default, on a computed landscape and on one built with compute=False whose data "
+            "appear only when compute_landscape is called: every line carries the requested depth's own data and label, and "
+            "nothing is read from the landscape before it is computed). Declines: pixel-level "
             "rendering, single-precision rounding of offsets, legend contents, the 3-D landscape plots (they discard ax).",
             SYMNOTE + "Axes methods draw on their receiver; pyplot functions on the current axes.", "DESIGN.md §4 C20"),
 })
@@ -160,7 +168,7 @@ CHECKS.update({
                   "whatever the traversal (nested loops, flat chain with seams, piece objects); site rules for wiring; NM-DTYPE (dtype-inheritance dataflow over the functions reachable from the norm entry points)",
             CLAUSE + "Decides NM-LAZY (must-pass-through: every read of the lazily computed data in p_norm / sup_norm lies behind a call that "
             "always runs compute_landscape(), through the MRO), NM-SIGN, NM-FORM (summand = integral of |line|^p in all three arms), NM-HOM (degree 1), NM-ARMS, "
-            "NM-SUP, NM-WIRE, NM-ALLDEPTHS (the loops of _p_norm over depths and segments run to the end), NM-DTYPE (the critical pairs are not laid out in a buffer typed by the landscape's samples). Declines: triangle inequality, stability vs bottleneck, nearly flat segments.",
+            "NM-SUP, NM-WIRE (the call of the integrator reached by the default call; calls reached only when an optional parameter is given are a newer option and are not judged), NM-ALLDEPTHS (the loops of _p_norm over depths and segments run to the end), NM-DTYPE (the critical pairs are not laid out in a buffer typed by the landscape's samples). Declines: triangle inequality, stability vs bottleneck, nearly flat segments.",
             SYMNOTE + "Abscissae strictly increasing along a depth; p >= 1.", "DESIGN.md §4 C10"),
 })
 
@@ -195,7 +203,7 @@ CHECKS.update({
                   "and serial/parallel agreement decided by symbolic execution of transform with the per-diagram routine "
                   "observed (arguments, order, wrapping); ownership analysis of the conversion sites; AD-MULT: site rule on "
                   "non-accumulating scatter through np.unique's inverse index (with a positive example checked on every run)",
-            CLAUSE + "Decides AD-FOLD (additive, order-free, zeros for empty), AD-ZERO, AD-EMPTY, AD-PAR, AD-WRAP, AD-SKEW. "
+            CLAUSE + "Decides AD-FOLD (additive, order-free, zeros for empty), AD-ZERO, AD-EMPTY, AD-PAR, AD-WRAP (a lone diagram, a one-element collection and a two-element collection, each serially and with n_jobs set: the shape of the result follows the call style only), AD-SKEW. "
             "Declines: non-negativity and pixel-total bounds (CDF monotonicity), bit-identical serial/parallel floats.",
             SYMNOTE + "joblib preserves order.", "DESIGN.md §4 C11"),
 })
